@@ -1,19 +1,7 @@
 // ---- prelude/cursor_contract.rs: the documented semantics of Cursor as an ASSUMED contract (unit R1 is relative to it) ----
 // Key order: byte strings compared lexicographically by std; vstd gives slice comparison no meaning, so it is an
 // uninterpreted strict total order (laws below are assumed).
-pub uninterp spec fn slice_lt<T>(a: Seq<T>, b: Seq<T>) -> bool;
-pub assume_specification<T: PartialOrd> [<[T] as PartialOrd<[T]>>::lt] (a: &[T], b: &[T]) -> (r: bool)
-    ensures r == slice_lt(a@, b@);
-pub assume_specification<T: PartialOrd> [<[T] as PartialOrd<[T]>>::le] (a: &[T], b: &[T]) -> (r: bool)
-    ensures r == (slice_lt(a@, b@) || a@ == b@);
-#[verifier::external_body]
-pub proof fn axiom_key_order()
-    ensures
-        forall|a: Seq<u8>| !#[trigger] slice_lt::<u8>(a, a),
-        forall|a: Seq<u8>, b: Seq<u8>, c: Seq<u8>| #[trigger] slice_lt::<u8>(a, b) && #[trigger] slice_lt::<u8>(b, c) ==> slice_lt::<u8>(a, c),
-        forall|a: Seq<u8>, b: Seq<u8>| #[trigger] slice_lt::<u8>(a, b) || a == b || slice_lt::<u8>(b, a),
-{
-}
+//@include prelude/keyorder.rs
 pub open spec fn keys_ascending(e: Seq<Seq<u8>>) -> bool {
     forall|i: int, j: int| 0 <= i < j < e.len() ==> slice_lt::<u8>(#[trigger] e[i], #[trigger] e[j])
 }
